@@ -60,9 +60,13 @@ def famNegotiated (i : Input) (f : Fam) : Bool := hasMp i.loc f && hasMp i.rem f
 /-- sender (local) may send path ids for `f`: local mode has the send bit, remote mode the receive bit -/
 def addPathTx (i : Input) (f : Fam) : Bool :=
   famNegotiated i f && apMode i.loc f / 2 % 2 == 1 && apMode i.rem f % 2 == 1
-/-- RFC 8950 negotiated for some common IPv4 family -/
-def extNhNegotiated (i : Input) : Bool :=
-  (mpFams i.loc).any (fun f => f.afi == 1 && hasMp i.rem f && hasEnh i.loc f && hasEnh i.rem f)
+/-- RFC 8950 §4: "a BGP speaker MUST only advertise to a BGP peer the NLRI of <AFI, SAFI> with a next hop of the
+    next-hop AFI if it has advertised the capability with that tuple AND received it from the peer": per family. -/
+def enhNegotiated (i : Input) (f : Fam) : Bool :=
+  famNegotiated i f && hasEnh i.loc f && hasEnh i.rem f
+/-- RFC 8950 in force for IPv4 unicast: its NLRI then travel in MP_REACH_NLRI / MP_UNREACH_NLRI (an encoder choice
+    that RFC 4760 permits; the legacy NLRI field cannot carry an IPv6 next hop) -/
+def extNhNegotiated (i : Input) : Bool := enhNegotiated i Fam.ipv4
 
 /-- The model's two codecs read the capability sets as the RFCs do, for family `f`: the family is in the peer's
     negotiated table, the sender's add-path-tx and the extended-next-hop flag are the RFC 7911 / RFC 8950 ones.
@@ -139,14 +143,16 @@ def buildable (i : Input) : Bool :=
        (match nh with
         | none => isFlowspec f          -- only flowspec carries no next hop (RFC 8955 §4)
         | some n => !isFlowspec f && nhOk n &&
-            -- legacy IPv4 encoding can only carry an IPv4 next hop; RFC 2545: IPv6 NLRI need an IPv6 next hop
-            (if f == Fam.ipv4 && !extNhNegotiated i then (match n with | .v4 _ => true | _ => false)
+            -- RFC 8950: an IPv4-AFI family takes an IPv6 next hop only when that was negotiated FOR THIS FAMILY;
+            -- RFC 2545: IPv6 NLRI need an IPv6 next hop
+            (if f.afi == 1 then ((match n with | .v4 _ => true | _ => false) || enhNegotiated i f)
              else if f.afi == 2 then (match n with | .v4 _ => false | _ => true) else true)) &&
        attrs.all attrOk && nodup (attrs.map (·.code)) &&
        attrs.all (fun a => !reservedAttrCodes.contains a.code) &&
-       (es.isEmpty || (hasCode 1 attrs && hasCode 2 attrs)) &&
+       -- the daemon only builds UPDATEs that carry routes (PendingTx groups pending prefixes into messages)
+       !es.isEmpty && hasCode 1 attrs && hasCode 2 attrs &&
        es.all (entryOk i f)
-   | .unreach f es => famOk f && famNegotiated i f && es.all (entryOk i f)
+   | .unreach f es => famOk f && famNegotiated i f && !es.isEmpty && es.all (entryOk i f)
    | .eor f => famOk f && (f == Fam.ipv4 || famNegotiated i f)
    | .notif c s d => c < 256 && s < 256 && bytesOk d && notifCanon c s d == (c, s, d)
    | .keepalive => true
@@ -184,7 +190,29 @@ def outKey : DEntry → Option Nat
   | .ip v6 a m pid => some (keyOf v6 a m pid)
   | .o .. => none
 
-def sortNat (l : List Nat) : List Nat := l.mergeSort (fun a b => a ≤ b)
+/-- merge of two sorted lists (tail recursive, structural on the fuel `f ≥ |a| + |b|`) -/
+def mergeF : Nat → List Nat → List Nat → List Nat → List Nat
+  | 0, a, b, acc => acc.reverse ++ a ++ b
+  | _ + 1, [], b, acc => acc.reverse ++ b
+  | _ + 1, a, [], acc => acc.reverse ++ a
+  | f + 1, x :: xs, y :: ys, acc =>
+      if x ≤ y then mergeF f xs (y :: ys) (x :: acc) else mergeF f (x :: xs) ys (y :: acc)
+
+def halve : List Nat → List Nat × List Nat
+  | [] => ([], [])
+  | [x] => ([x], [])
+  | x :: y :: r => let h := halve r; (x :: h.1, y :: h.2)
+
+/-- merge sort by structural recursion on a fuel (so that the kernel can evaluate it on concrete inputs) -/
+def msortF : Nat → List Nat → List Nat
+  | 0, l => l
+  | f + 1, l =>
+      match l with
+      | [] => []
+      | [x] => [x]
+      | _ => let h := halve l; mergeF l.length (msortF f h.1) (msortF f h.2) []
+
+def sortNat (l : List Nat) : List Nat := msortF l.length l
 
 def insertAttr (a : Attr) : List Attr → List Attr
   | [] => [a]
@@ -316,22 +344,47 @@ def attrsVerdict (want : List Attr) : Parsed → Option String
           | none => some "attributes-differ"
   | _ => none
 
-/-- what is special about the input AS_PATH (for classifying a difference) -/
-def asPathCause (attrs : List Attr) : String :=
-  match attrs.find? (·.code == 2) with
+/-- the AS_PATH values the peer decoded on announcement frames -/
+def decodedAsPaths (ps : List Parsed) : List Bytes :=
+  ps.flatMap (fun p => match p with
+    | .upd r mr _ _ got _ =>
+        if r.isNone && mr.isNone then []
+        else (got.filter (·.code == 2)).map wireValue
+    | _ => [])
+
+/-- Classification of an AS_PATH difference towards a 2-octet-AS peer as the recorded RFC 6793 limitation: the
+    input path has a confederation segment behind a non-confederation one, or a wide AS number inside a confederation
+    segment, AND what the peer decoded is exactly what RFC 6793 §4.2.3 yields for it (leading confederation segments
+    with AS_TRANS for wide members, followed by the non-confederation segments unchanged).  Any other difference
+    stays a plain `as-path-differs`. -/
+def asPathCause (i : Input) (attrs : List Attr) (ps : List Parsed) : String :=
+  if as4Both i.loc i.rem then ""
+  else match attrs.find? (·.code == 2) with
   | some a =>
       (match parseSegs 4 (wireValue a) with
        | some segs =>
            let confed := fun (s : Seg) => s.1 == 3 || s.1 == 4
-           -- RFC 6793 cannot carry these: a confederation segment behind a non-confederation one (it is not
-           -- "leading or adjacent to a prepended segment"), a wide AS number inside a confederation segment
-           if (segs.dropWhile confed).any confed then "-confed-segment-not-leading"
+           let lead := (segs.takeWhile confed).map (fun s => (s.1, s.2.map (fun x => if x > 65535 then TRANS_ASN else x)))
+           let rfc := encSegs 4 (lead ++ segs.filter (fun s => !confed s))
+           let got := decodedAsPaths ps
+           if got.isEmpty || got.any (· ≠ rfc) then ""
+           else if (segs.dropWhile confed).any confed then "-confed-segment-not-leading"
            else if segs.any (fun s => confed s && s.2.any (· > 65535)) then "-confed-segment-wide-as"
-           else if segs.any confed then "-confed-segment"
-           else if segs.any (fun s => s.2.isEmpty) then "-empty-segment"
            else ""
        | none => "")
   | none => ""
+
+/-- families whose IPv4 next hop `mp_reach_encode` right-pads to 16 bytes (recorded defect F4d): every MP family
+    except flowspec (no next hop), VPN (RD form) and the as-is ones (SR-policy, multicast, EVPN) -/
+def paddedNhFam (f : Fam) : Bool := !isFlowspec f && !isVpn f && !nhAsIs f
+
+/-- the peer recorded attribute errors / attributes for this decoded UPDATE -/
+def updHasErrs : Parsed → Bool
+  | .upd _ _ _ _ _ errs => !errs.isEmpty
+  | _ => false
+def updHasAttrs : Parsed → Bool
+  | .upd _ _ _ _ got _ => !got.isEmpty
+  | _ => false
 
 def checkUpdate (i : Input) (f : Fam) (reach : Bool) (nh : Option Nh) (attrs : List Attr) (es : List Entry)
     (ps : List Parsed) : Option String :=
@@ -349,16 +402,23 @@ def checkUpdate (i : Input) (f : Fam) (reach : Bool) (nh : Option Nh) (attrs : L
     | none =>
       if reach then
         if mine.any (fun c => c.nh ≠ some nh) then
-          -- classify by the input: an IPv4 next hop that has to travel inside MP_REACH_NLRI
-          let v4InMp := (match nh with | some (.v4 _) => true | _ => false) && !(f == Fam.ipv4 && !extNhNegotiated i)
-          some (if v4InMp then "nexthop-differs-ipv4-in-mp-reach" else "nexthop-differs")
+          -- the recorded shape (F4d): an IPv4 next hop inside MP_REACH_NLRI of a family whose next hop the encoder
+          -- pads, decoded as that address followed by 12 zero bytes; anything else is a plain difference
+          let padded : Bool := match nh with
+            | some (.v4 a) =>
+                !(f == Fam.ipv4 && !extNhNegotiated i) && paddedNhFam f &&
+                mine.all (fun c => c.nh == some (some (.v6 (a ++ List.replicate 12 0))))
+            | _ => false
+          some (if padded then "nexthop-differs-ipv4-in-mp-reach" else "nexthop-differs")
         else
-          -- classify an AS_PATH difference by the input path: confederation / empty segment / neither
+          -- classify an AS_PATH difference (RFC 6793 limitation or not)
           (firstSome ps (attrsVerdict (sortAttrs (attrs.map canonAttr)))).map (fun s =>
-            if s == "as-path-differs" then s ++ asPathCause attrs else s)
+            if s == "as-path-differs" then s ++ asPathCause i attrs ps else s)
       else
-        let _ := i
-        none
+        -- a withdrawal carries no attributes, and the peer must not have seen attribute errors in it
+        if ps.any updHasErrs then some "attribute-errors-at-peer"
+        else if ps.any updHasAttrs then some "unexpected-attributes-in-withdraw"
+        else none
 
 def kindName : Msg → String
   | .open .. => "open" | .reach .. => "reach" | .unreach .. => "unreach" | .eor _ => "eor"
@@ -379,8 +439,8 @@ def frameHasNlri (fr : Bytes) : Bool :=
 
 /-- expected region bytes of the opaque-family entries -/
 def opaqueRegion (addpath : Bool) (es : List Entry) : Option Bytes :=
-  if es.all (fun e => match e.nlri with | .opq (.ok _) _ => true | _ => false) && !es.isEmpty then
-    some (es.flatMap (fun e => (if addpath then be32 e.pid else []) ++ (match e.nlri with | .opq (.ok b) _ => b | _ => [])))
+  if es.all (fun e => match e.nlri with | .opq (.ok _) _ _ => true | _ => false) && !es.isEmpty then
+    some (es.flatMap (fun e => (if addpath then be32 e.pid else []) ++ (match e.nlri with | .opq (.ok b) _ _ => b | _ => [])))
   else none
 
 /-! ### can the message be encoded at all? (wire sizes from RFC 4271 §4.3, RFC 4760, RFC 6793, RFC 5492) -/
@@ -404,18 +464,25 @@ def attrWireSize (two : Bool) (a : Attr) : Nat :=
     tlvSize a.flags 6 + (if beNat ((wireValue a).take 4) > 65535 then tlvSize 0 8 else 0)
   else tlvSize a.flags n
 
-/-- does the NLRI have a wire form at all (a label stack whose bit count exceeds the length octet has none) -/
+/-- does the NLRI have a wire form at all?  Decided from the input (`wire`, see `Codec.hasWireForm`: a label stack
+    whose bit count exceeds the length octet has none), never from what the encoder under test did with it. -/
 def entryEncodable (e : Entry) : Bool :=
   match e.nlri with
-  | .opq .err _ => false
+  | .opq _ _ wire => wire
   | _ => true
+
+/-- an NLRI that has a wire form but was refused by the encoder (probe ENC = `err`) -/
+def entryRefused (e : Entry) : Bool :=
+  match e.nlri with
+  | .opq .err _ wire => wire
+  | _ => false
 
 def entryWireSize (addpath : Bool) (e : Entry) : Nat :=
   (if addpath then 4 else 0) +
   (match e.nlri with
    | .ip _ _ mask => 1 + ceil8 mask
-   | .opq (.ok b) _ => b.length
-   | .opq _ _ => 0)
+   | .opq (.ok b) _ _ => b.length
+   | .opq _ _ _ => 0)
 
 def capWireSize : Cap → Nat
   | .mp _ => 6 | .rr => 2 | .em => 2 | .err => 2 | .as4 _ => 6
@@ -522,9 +589,11 @@ def contentClause (i : Input) (frames : List Bytes) (ps : List Parsed) : Option 
       else some s
   | none => none
 
+/-- the fixed-point probe must have run and succeeded (`na` = something decoded was not clean: the earlier clauses
+    catch every such case, so `na` is never acceptable here) -/
 def fpClause : Fp → Option String
   | .t => none
-  | .na => none
+  | .na => some "fixed-point-not-run"
   | .f => some "fixed-point-differs"
   | .panic => some "fixed-point-panic"
 
@@ -533,10 +602,18 @@ def checkClause0 (i : Input) (o : Obs) : Option String :=
   match o with
   | .panic => some "panic"
   | .err =>
-      -- an encodable input was refused; classified by the recorded cause (IPv4 next hop padded inside MP_REACH)
+      -- an encodable input was refused: a valid NLRI that the encoder does not encode, or the recorded cause
+      -- F4d (the 12 padding bytes of an IPv4 next hop inside MP_REACH are what makes some entry not fit)
       some (match i.msg with
-        | .reach f (some (.v4 _)) _ _ =>
-            if f == Fam.ipv4 && !extNhNegotiated i then "encode-error" else "encode-error-ipv4-in-mp-reach"
+        | .reach f nh _ es =>
+            if es.any entryRefused then "valid-entry-refused"
+            else match nh with
+              | some (.v4 _) =>
+                  if !(f == Fam.ipv4 && !extNhNegotiated i) && paddedNhFam f &&
+                     es.any (fun e => frameBase i + 12 + entryWireSize (addPathTx i f) e > maxFrame i)
+                  then "encode-error-ipv4-in-mp-reach" else "encode-error"
+              | _ => "encode-error"
+        | .unreach _ es => if es.any entryRefused then "valid-entry-refused" else "encode-error"
         | _ => "encode-error")
   | .obs n stream dec fp =>
     let frames := (splitFrames stream).1
@@ -563,7 +640,7 @@ def check (i : Input) (o : Obs) : Verdict :=
 
 /-- clauses whose classification depends on the address family (frame size / entry bookkeeping) -/
 def famClause (c : String) : Bool :=
-  c == "panic" || c == "frame-exceeds-max" || (c.startsWith "entries-" && c != "entries-dropped-at-empty-frame") ||
+  c == "panic" || c == "frame-exceeds-max" || c == "valid-entry-refused" || (c.startsWith "entries-" && c != "entries-dropped-at-empty-frame") ||
   c == "nlri-bytes-differ" ||
   c == "path-ids-differ" || c.startsWith "peer-decode-" || c == "stream-not-delimitable" ||
   c == "update-lengths-inconsistent" || c == "mp-lengths-inconsistent" || c == "frame-count-differs"
